@@ -185,6 +185,7 @@ DESCRIPTIONS = {
     'optional-section': ('', {}, [('calc', ('', {}, [('a', L('1')), ('opt', ('', {'default': 'OPTIONAL'}, [('e', L('5'))]))]))]),
     'list': ('', {}, [('calc', ('', {}, [('a', L('1')), ('items', ('', {'list': ''}, [('item', ('', {}, [('n', L('0')), ('m', L('OPTIONAL'))]))]))]))]),
     'unchecked': ('', {}, [('calc', ('', {}, [('a', L('1')), ('free', ('', {'unchecked': ''}, []))]))]),
+    'required-nested': ('', {}, [('calc', ('', {}, [('a', L('1')), ('sec', ('', {'default': 'REQUIRED'}, [('x', L('REQUIRED')), ('y', L('2')), ('deep', ('', {}, [('z', L('REQUIRED'))]))]))]))]),
 }
 U = lambda v='', kids=(): (v, {}, list(kids))
 USERS = {
@@ -195,6 +196,8 @@ USERS = {
     'list': [('not-mentioned', U('', [('calc', U('', [('a', U('2'))]))])), ('zero', U('', [('calc', U('', [('items', U())]))])), ('one', U('', [('calc', U('', [('items', U('', [('item', U('', [('n', U('4'))]))]))]))])),
              ('two', U('', [('calc', U('', [('items', U('', [('item', U('', [('n', U('4'))])), ('item', U('', [('m', U('k'))]))]))]))])),
              ('undeclared-in-item', U('', [('calc', U('', [('items', U('', [('item', U('', [('zz', U('4'))]))]))]))]))],
+    'required-nested': [('complete', U('', [('calc', U('', [('sec', U('', [('x', U('5')), ('deep', U('', [('z', U('6'))]))]))]))])), ('inner-missing', U('', [('calc', U('', [('sec', U('', [('y', U('3')), ('deep', U('', [('z', U('6'))]))]))]))])),
+                        ('deep-missing', U('', [('calc', U('', [('sec', U('', [('x', U('5'))]))]))])), ('section-missing', U('', [('calc', U('', [('a', U('2'))]))]))],
     'unchecked': [('inside', U('', [('calc', U('', [('free', U('', [('maxcore', U('3000')), ('deep', U('', [('er', U('1'))]))]))]))])), ('untouched', U('', [('calc', U('', [('a', U('2'))]))])),
                   ('outside', U('', [('calc', U('', [('zz', U('1'))]))]))],
 }
